@@ -335,6 +335,10 @@ def build() -> Tuple[World, MergeInterp, Optional[FunctionInfo]]:
     world = new_world()
     interp = MergeInterp(world)
     load_module(world, interp, os.path.join(REPO, REL), "model", REL)
+    for q, f in world.functions.items():
+        # module-level helper functions of model.py are executed (inlined), not assumed
+        if q.startswith(REL + "::") and "." not in q.split("::", 1)[1]:
+            f.inline = True
     fi = world.functions.get(f"{REL}::create_lsp_model")
     return world, interp, fi
 
